@@ -158,6 +158,7 @@ var Mutants = map[string][]Mutant{
 		{"Windings looks at the whole path only", "path.go", `\tfor _, pi := range p\.Split\(\) \{\n\t\tzs := pi\.RayIntersections\(x, y\)`, "\tfor _, pi := range []*Path{p} {\n\t\tzs := pi.RayIntersections(x, y)", "E9.subpaths"},
 	},
 	"C07": {
+		{"similarity shortcut adds the matrix angle to the arc rotation, reflections included (seed C07o)", "path.go", `(?s)(func \(p \*Path\) Transform\(m Matrix\) \*Path \{.*?\t\t\tend := Point\{p\.d\[i\+5\], p\.d\[i\+6\]\}\n)(\n\t\t\t// For ellipses written as the conic)`, "${1}\t\t\tif m.IsSimilarity() && !Equal(rx, ry) {\n\t\t\t\tphi += math.Atan2(m[1][0], m[0][0])\n\t\t\t\tend = m.Dot(end)\n\t\t\t\tsc := math.Sqrt(math.Abs(m.Det()))\n\t\t\t\tp.d[i+1], p.d[i+2], p.d[i+3], p.d[i+5], p.d[i+6] = rx*sc, ry*sc, phi, end.X, end.Y\n\t\t\t\ti += cmdLen(cmd)\n\t\t\t\tcontinue\n\t\t\t}\n${2}", "E11.arc-shortcut-orientation"},
 		{"ReflectX negates a row instead of a column", "util.go", `(func \(m Matrix\) ReflectX\(\) Matrix \{\n)\treturn m\.Scale\(-1\.0, 1\.0\)\n`, "${1}\tm[0][0], m[0][1] = -m[0][0], -m[0][1]\n\treturn m\n", "E11.matrix-composers"},
 		{"Rect.Transform takes two corners when the matrix is diagonal", "util.go", `(func \(r Rect\) Transform\(m Matrix\) Rect \{\n)`, "${1}\tif m[0][1] == 0.0 && m[1][0] == 0.0 {\n\t\tq0 := m.Dot(Point{r.X0, r.Y0})\n\t\tq1 := m.Dot(Point{r.X1, r.Y1})\n\t\treturn Rect{q0.X, q0.Y, q1.X, q1.Y}\n\t}\n", "E3.hull-every-return"},
 		{"ToSVG matrix form written row by row", "util.go", `-dec\(m\[1\]\[0\]\), -dec\(m\[0\]\[1\]\)`, "-dec(m[0][1]), -dec(m[1][0])", "E11.svg-matrix-order"},
@@ -372,6 +373,7 @@ var Mutants = map[string][]Mutant{
 		{"setter writes the stack", "canvas.go", `func \(c \*Context\) SetStrokeWidth\(width float64\) \{\n`, "func (c *Context) SetStrokeWidth(width float64) {\n\tc.stack = nil\n", "E11.ctx-setter"},
 	},
 	"C16": {
+		{"reversed run laid out from its first span at every level (seed C16m)", "text.go", `(?s)\t\t\t\t\t\tvar x float64\n\t\t\t\t\t\tif \(level % 2\) == 1 \{\n\t\t\t\t\t\t\tx = spans\[first\]\.X\n\t\t\t\t\t\t\} else \{\n\t\t\t\t\t\t\tx = spans\[last-1\]\.X\n\t\t\t\t\t\t\}\n`, "\t\t\t\t\t\tx := spans[first].X\n", "E11.bidi-run-origin"},
 		{"computeSum stops at every legal penalty (seed C16o)", "text/linebreak.go", `item\.Penalty <= -Infinity && 0 < i`, "item.Penalty < Infinity && 0 < i", "E4.swallowed-glue-stops"},
 		{"cluster offset advanced by the rune count (seed C16n)", "text.go", `clusterOffset \+= uint32\(len\(run\.Text\)\)`, "clusterOffset += uint32(len([]rune(run.Text)))", "E11.cluster-offset-bytes"},
 		{"item boundary only where text and object placeholder meet", "text/text.go", `objectReplacementBoundary := r == unicode\.ReplacementChar \|\| 0 < j && runes\[j-1\] == unicode\.ReplacementChar`, "objectReplacementBoundary := 0 < j && (r == unicode.ReplacementChar) != (runes[j-1] == unicode.ReplacementChar)", "E11.object-own-item"},
@@ -444,6 +446,7 @@ var Mutants = map[string][]Mutant{
 		{"vertical fonts written as horizontal", "renderers/pdf/writer.go", `w\.writeFonts\(w\.fontsV, true\)`, `w.writeFonts(w.fontsV, false)`, "E5.fontmaps"},
 	},
 	"C19": {
+		{"pairs after a relative moveto read as absolute (seed C19p)", "path.go", `(\t\t\t\tp1 = p1\.Add\(p0\)\n\t\t\t\tcmd = )'l'`, "${1}'L'", "E11.implicit-lineto-relativity"},
 		{"descendant combinator commits to the nearest matching ancestor (seed C19o)", "svg.go", `\t\t\tif sels\.appliesAt\(isel-1, elems, j\) \{\n\t\t\t\treturn true\n\t\t\t\}\n`, "\t\t\tif sels[isel-1].AppliesTo(elems[j]) {\n\t\t\t\treturn sels.appliesAt(isel-1, elems, j)\n\t\t\t}\n", "E11.selector-backtracks"},
 		{"a sign does not start a new number", "svg.go", `(?s)\t\tcase \(ch == '-' \|\| ch == '\+'\) && 0 < i && \('0' <= v\[i-1\] && v\[i-1\] <= '9' \|\| v\[i-1\] == '\.'\):\n\t\t\tsb\.WriteByte\(','\)\n\t\t\tsb\.WriteByte\(ch\)\n`, "", "E11.number-list-separators"},
 		{"style element read whatever closed its start tag", "svg.go", `if tt != xml\.StartTagCloseVoidToken \{ // <style/> has no content and no end tag`, "if true {", "E11.svg-style-element"},
